@@ -186,7 +186,7 @@ def _mask(ex, x, d):
 
 
 @scenario('C15', 'grad_api', ['torchtt.grad.watch', 'torchtt.grad.unwatch', 'torchtt.grad.grad', 'torchtt.grad.grad_list', 'torchtt.grad.watch_list'],
-          quick=[dict(case=c) for c in ('watch_all', 'watch_some', 'unwatch', 'grad_all', 'grad_indices', 'grad_indices_permuted', 'grad_list_flat', 'grad_list_nested', 'grad_list_nested_rev', 'watch_list', 'grad_twice', 'grad_list_twice', 'grad_of_constant', 'grad_list_of_constant', 'grad_then_indices', 'grad_independent', 'grad_indices_independent', 'grad_list_independent', 'grad_list_nested_independent')],
+          quick=[dict(case=c) for c in ('watch_all', 'watch_some', 'unwatch', 'grad_all', 'grad_indices', 'grad_indices_permuted', 'grad_list_flat', 'grad_list_nested', 'grad_list_nested_rev', 'watch_list', 'grad_twice', 'grad_list_twice', 'grad_of_constant', 'grad_list_of_constant', 'grad_then_indices', 'grad_partial_watch', 'grad_partial_watch_indices', 'grad_list_partial_watch', 'grad_of_clone', 'grad_list_of_clone', 'grad_independent', 'grad_indices_independent', 'grad_list_independent', 'grad_list_nested_independent')],
           replay='grad_api')
 def grad_api(ob, case):
     """watch/unwatch toggle requires_grad of the selected cores and nothing else; grad / grad_list return the .grad of the cores, in the
@@ -218,6 +218,48 @@ def grad_api(ob, case):
         ob.prove('same_cores', all(a is b for a, b in zip(x.attrs['cores'], cores)))
         bad = [w for w in ex.writes if w[0] != 'requires_grad']
         ob.prove('only_requires_grad_changes', not bad)
+        return
+    if case in ('grad_partial_watch', 'grad_partial_watch_indices', 'grad_list_partial_watch'):
+        # only some cores are watched (an unwatched core PRECEDES the watched ones): every requested position holds the derivative
+        # w.r.t. the core at THAT position -- zeros of its shape for the unwatched core
+        cores[1].requires_grad = True
+        cores[2].requires_grad = True
+        v = ex.call(ex.getattr(x, 'sum'), [])
+        if case == 'grad_partial_watch':
+            g, want = ex.call(G['grad'], [v, x]), [0, 1, 2]
+        elif case == 'grad_partial_watch_indices':
+            g, want = ex.call(G['grad'], [v, x, [0, 2]]), [0, 2]
+        else:
+            y = ob.tt('y', 2, dtype='float64')
+            for c in y.attrs['cores']:
+                c.requires_grad = True
+            v = ex.binop('Add', v, ex.call(ex.getattr(y, 'sum'), []))
+            g, want = ex.call(G['grad_list'], [v, [x, y]]), [0, 1, 2]
+            ycs = y.attrs['cores']
+            ok = isinstance(g, list) and len(g) == d + 2
+            ob.prove('structure', ok)
+            if ok:
+                for j, (gt, ct) in enumerate(zip(g[d:], ycs)):
+                    tag = gt.ghost.get('grad_of') if isinstance(gt, STensor) else None
+                    ob.prove('second_tensor.entry%d_is_the_derivative' % j, bool(tag is not None and tag[0] is v and tag[1] is ct))
+                g = g[:d]
+        ob.prove('is_list', isinstance(g, list) and len(g) == len(want))
+        if isinstance(g, list) and len(g) == len(want):
+            for j, (gt, kk) in enumerate(zip(g, want)):
+                ct = cores[kk]
+                ok = isinstance(gt, STensor)
+                ob.prove('entry%d_is_tensor' % j, ok)
+                if not ok:
+                    continue
+                all_eq(ob, 'entry%d_shape' % j, gt.shape, ct.shape)
+                if kk == 0:
+                    if gt._val is not None and len(gt.shape) == len(ct.shape):
+                        ob.prove_eq('entry%d_unwatched_core_has_zero_derivative' % j, gt.at(H.fresh_axis_index(ex, gt)), Term.zero())
+                    else:
+                        ob.fail('entry%d_unwatched_core_has_zero_derivative' % j, 'value', 'not a zero tensor')
+                else:
+                    tag = gt.ghost.get('grad_of')
+                    ob.prove('entry%d_is_the_derivative_w.r.t._core_%d' % (j, kk), bool(tag is not None and tag[0] is v and tag[1] is ct))
         return
     for c in cores:
         c.requires_grad = True
@@ -275,6 +317,21 @@ def grad_api(ob, case):
         for j, (gt, ct) in enumerate(dep_of):
             tag = gt.ghost.get('grad_of') if isinstance(gt, STensor) else None
             ob.prove('dependent.entry%d_is_the_derivative' % j, bool(tag is not None and tag[0] is vy and tag[1] is ct))
+        return
+    if case in ('grad_of_clone', 'grad_list_of_clone'):
+        # cores that are tracked by autograd but are not leaves (the cores of x.clone() for a watched x): the derivative of a value
+        # built from them w.r.t. THESE cores is returned (not zeros, not None)
+        z = ex.call(ex.getattr(x, 'clone'), [])
+        zc = list(z.attrs['cores'])
+        ob.prove('clone_cores_are_tracked_non_leaves', all(isinstance(c, STensor) and c.deps and not c.is_leaf for c in zc))
+        sq = ex.binop('Mult', z, z)
+        vz = ex.call(ex.getattr(sq, 'sum'), [])
+        g = ex.call(G['grad'], [vz, z]) if case == 'grad_of_clone' else ex.call(G['grad_list'], [vz, [z]])
+        ob.prove('is_list', isinstance(g, list) and len(g) == d)
+        if isinstance(g, list) and len(g) == d:
+            for j, (gt, ct) in enumerate(zip(g, zc)):
+                tag = gt.ghost.get('grad_of') if isinstance(gt, STensor) else None
+                ob.prove('entry%d_is_the_derivative_w.r.t._the_non_leaf_core' % j, bool(tag is not None and tag[0] is vz and tag[1] is ct))
         return
     if case == 'grad_then_indices':
         # history with the core_indices option: a full gradient, then the gradient of another value w.r.t. ONE core.  The list
